@@ -138,3 +138,12 @@ claim(
     "abstract interpretation of a function prefix over an indicator-algebra array domain; polynomial identity against a painter's-order oracle; syntax-tree sibling-name rule",
     "DESIGN.md §5 C28",
 )
+
+claim(
+    "C32",
+    "other",
+    "Decides the unfolding code on arrays of free symbolic entries: the 36-entry parity table equals the image-field rule (electric wall: normal E / tangential H even, tangential E / normal H odd; magnetic wall opposite) and the on-plane table equals the Yee staggering; unfold_fields for all 26 symmetry tuples x {E,H} keeps the input as upper half and fills the lower half with parity*kept[mirror(index)] (n-1-j off-plane, n-j on-plane with the outermost sample repeating its neighbour); unfold_array with signs and on-plane axes; _unfold_one_detector for field, phasor, energy and Poynting detectors, spatial records with and without co-location, where each unfolded row must carry the parity of the component that row actually holds (read off the record's own atoms); and for reduced records unfolding the reduced value equals reducing the unfolded spatial record (mean for field/phasor, sum for energy/Poynting) with 1, 2 and 3 touched planes of either kind. Which detectors straddle a plane, and round-off, are not decided.",
+    TB + "; sa/ndarr.py model of flip / concatenate / reshape / broadcasting on concrete-shape arrays; size-uniformity of those index maps",
+    "finite decision tables by abstract interpretation; abstract interpretation on arrays of free symbols with entry-wise polynomial identity against the documented mirror index map",
+    "DESIGN.md §5 C32",
+)
